@@ -3587,15 +3587,36 @@ def l_in(_, instr, src1, src2):
     return e, []
 
 
-@sbuild.parse
-def cmpxchg(arg1, arg2):
-    accumulator = mRAX[instr.v_opmode()][:arg1.size]
-    if (accumulator - arg1):
-        zf = i1(0)
-        accumulator = arg1
+def cmpxchg(ir, instr, dst, src):
+    size = dst.size
+    if size == 8:
+        accumulator = mRAX[instr.mode][:8]
     else:
-        zf = i1(1)
-        arg1 = arg2
+        accumulator = mRAX[size]
+
+    # Flags are set as for CMP accumulator, dst
+    e = []
+    result = accumulator - dst
+    e += update_flag_arith_sub_znp(accumulator, dst)
+    e += update_flag_arith_sub_co(accumulator, dst, result)
+    e += update_flag_af(accumulator, dst, result)
+
+    loc_eq, loc_eq_expr = ir.gen_loc_key_and_expr(ir.IRDst.size)
+    loc_ne, loc_ne_expr = ir.gen_loc_key_and_expr(ir.IRDst.size)
+    loc_next = ir.get_next_loc_key(instr)
+    loc_next_expr = m2_expr.ExprLoc(loc_next, ir.IRDst.size)
+
+    do_eq = [m2_expr.ExprAssign(dst, src),
+             m2_expr.ExprAssign(ir.IRDst, loc_next_expr)]
+    do_ne = [m2_expr.ExprAssign(accumulator, dst),
+             m2_expr.ExprAssign(ir.IRDst, loc_next_expr)]
+    blk_eq = IRBlock(ir.loc_db, loc_eq, [AssignBlock(do_eq, instr)])
+    blk_ne = IRBlock(ir.loc_db, loc_ne, [AssignBlock(do_ne, instr)])
+
+    e.append(m2_expr.ExprAssign(ir.IRDst,
+                                m2_expr.ExprCond(result,
+                                                 loc_ne_expr, loc_eq_expr)))
+    return e, [blk_eq, blk_ne]
 
 
 @sbuild.parse
